@@ -267,6 +267,14 @@ func genEntry(unpriv bool) *rapid.Generator[tarx.Entry] {
 			e.Format = "pax"
 		}
 		e.Sec = 1500000000 + int64(rapid.IntRange(0, 99999).Draw(t, "sec"))
+		switch rapid.IntRange(0, 39).Draw(t, "oddsec") {
+		case 0:
+			e.Sec = 0 // the epoch itself
+		case 1:
+			e.Sec = 1
+		case 2:
+			e.Sec = 4102444800
+		}
 		if e.Format == "pax" {
 			e.Nsec = rapid.SampledFrom([]int64{0, 1, 400000000, 500000000, 999999999}).Draw(t, "nsec")
 		}
